@@ -169,7 +169,16 @@ def get_ast(func):
     try:
         module = ast.parse(source)
     except SyntaxError:
-        return None
+        # an indented def whose text has lines further left (the inside of a
+        # multi-line string, a comment at column zero) cannot be dedented:
+        # parse it where it stands, inside a block
+        try:
+            module = ast.parse('if 1:\n' + rawsource)
+        except SyntaxError:
+            return None
+        if len(module.body) != 1 or not isinstance(module.body[0], ast.If):
+            return None
+        module = ast.Module(body=module.body[0].body, type_ignores=[])
     if not module.body:
         # eg. the file changed since it was imported and what is at the
         # function's lines now is blank or comments
